@@ -11,7 +11,7 @@ open Atomman Atomman.C10
     box   <via> unit <12 rationals: a b c origin>
     atoms <via> <natoms> <nprops> {<name> unit arr}* [sel <k> {<name> unit}*]   (selection = the prop_unit dict)
     sys   <via> unit(box) <12 rationals> <3 pbc> <nsym> {sym|-}* <nmass> {mass|-}* <natoms> <nprops> {<name> unit arr}*
-    ec    <via> unit <36 C> <36 normalized C>
+    ec    <via> unit <crystal system> <mu|-> <K|-> <36 C>     (mu, K: Hill estimates, `-` when they raise)
     nest  <rank> <dims…> <data…>
   via = tree | json | xml (xml applies the one-element-list collapse before reading back).
 -/
@@ -260,17 +260,24 @@ def handleC10 (toks : List String) : String :=
       | _ => err "format"
   | "ec" :: via :: r =>
     match pUnit r with
-    | some (u, r1) =>
-      match parseRats? r1 with
-      | some xs =>
-        if xs.length ≠ 72 then err "format" else
-        let (fw, fr) := facTabs [] [(u.unit, u.fW, u.fR)]
-        let c := xs.take 36
-        let nc := xs.drop 36
-        reply via (ecModel fw u.unit (fun _ => nc) c) (ecRead fr eps eps rtolSym)
-          (fun l => jList (l.map jFlt))
+    | some (u, cs :: r1) =>
+      match pOptRat r1 with
+      | some (mu, r2) =>
+        match pOptRat r2 with
+        | some (k, r3) =>
+          match parseRats? r3 with
+          | some c =>
+            if c.length ≠ 36 then err "format" else
+            let (fw, fr) := facTabs [] [(u.unit, u.fW, u.fR)]
+            let muK : Option (Rat × Rat) := match mu, k with
+              | some m, some k => some (m, k)
+              | _, _ => none
+            reply via (ecModelCS fw u.unit eps eps rtolSym muK cs c) (ecRead fr eps eps rtolSym)
+              (fun l => jList (l.map jFlt))
+          | none => err "format"
+        | none => err "format"
       | none => err "format"
-    | none => err "format"
+    | _ => err "format"
   | "nest" :: rk :: r =>
     match rk.toNat? with
     | none => err "format"
